@@ -15,7 +15,7 @@ PostOK(j) ==
        /\ role'[a] = j.post[a].role /\ conn'[a] = j.post[a].conn
        /\ gen'[a] = j.post[a].gen /\ rgen'[a] = j.post[a].rgen
        /\ locals'[a] = j.post[a].locals /\ remotes'[a] = j.post[a].remotes
-       /\ ProjPairs(pairs'[a]) = j.post[a].pairs
+       /\ ProjPairs(pairs'[a]) = ProjPairs(j.post[a].pairs)
        /\ {ProjTxn(x) : x \in pend'[a]} = {ProjTxn(x) : x \in Rng(j.post[a].pend)}
        /\ sel'[a] = j.post[a].sel /\ nomPair'[a] = j.post[a].nomPair /\ lastNom'[a] = j.post[a].lastNom
        /\ gath'[a] = j.post[a].gath
@@ -31,7 +31,7 @@ ResetStep ==
   /\ LET r == [a \in Agents |-> AddAllRemotes(<<>>, 0, Loc[a], PreSignal[a], 1, InitRole[a] = "controlling")] IN
        pairs' = [a \in Agents |-> r[a].ps] /\ nextId' = [a \in Agents |-> r[a].id]
   /\ pend' = [a \in Agents |-> {}] /\ sel' = [a \in Agents |-> 0] /\ nomPair' = [a \in Agents |-> 0]
-  /\ conn' = [a \in Agents |-> "Checking"] /\ nextTid' = [a \in Agents |-> 1]
+  /\ conn' = [a \in Agents |-> "Checking"] /\ nextTid' = Tid0
   /\ net' = EmptyBag /\ ticks' = [a \in Agents |-> 0] /\ loss' = 0 /\ dup' = 0 /\ inj' = 0 /\ rst' = 0
   /\ out' = EmptyBag /\ answered' = [a \in Agents |-> {}]
   /\ now' = 0 /\ lastRx' = [a \in Agents |-> Never] /\ selStart' = [a \in Agents |-> 0] /\ chkStart' = [a \in Agents |-> 0]
